@@ -471,7 +471,10 @@ func (c *zzCluster) pessimisticLock(r *kvrpcpb.PessimisticLockRequest) *kvrpcpb.
 	}
 	fut := r.ForUpdateTs
 	if outcome == zzLockWithConflict {
-		fut = r.ForUpdateTs + 5
+		// the newer version's commit ts is arbitrary above the request's for-update ts
+		d := zzU64("conflict.delta")
+		zzAssume(d >= 1 && d <= 1<<20)
+		fut = r.ForUpdateTs + d
 	}
 	for _, m := range r.Mutations {
 		ks := c.key(m.Key)
